@@ -162,7 +162,7 @@ pub fn check_entry(e: &Entry, rng: &mut Rng, rep: &mut Report, replay: Value) {
 }
 
 pub fn random(ctx: &Ctx) -> Report {
-    let n = ctx.n(100_000, 10_000_000);
+    let n = ctx.n(2_000_000, 1_000_000_000);
     par_cases(ctx, "random", n, ctx.secs(20, 400), |i, rng, rep| {
         let e = gen_entry(rng, None);
         if i < 2 {
@@ -181,7 +181,7 @@ pub fn patterns(ctx: &Ctx) -> Report {
             pats.push((0..l).map(|b| m >> b & 1 == 1).collect());
         }
     }
-    let reps = ctx.n(40, 2000);
+    let reps = ctx.n(400, 100_000);
     let total = pats.len() as u64 * reps;
     let mut rep = par_cases(ctx, "patterns", total, ctx.secs(30, 300), |i, rng, rep| {
         let p = &pats[(i % pats.len() as u64) as usize];
